@@ -59,6 +59,8 @@ type vmMachine struct {
 	tempFail  bool // make the next temporary mapping fail
 
 	aliases [][]byte
+	// pageZero: host memory is mapped at address 0 (alias of a frame): virtual page 0 exists
+	pageZero bool
 	// onTemp runs when the kernel asks for a temporary mapping: the moment the page-fault
 	// handler is about to copy a page (see realias)
 	onTemp func()
@@ -112,6 +114,10 @@ func (m *vmMachine) reset() {
 		syscall.Munmap(a)
 	}
 	m.aliases = nil
+	if m.pageZero {
+		syscall.Syscall(syscall.SYS_MUNMAP, 0, 4096, 0)
+		m.pageZero = false
+	}
 	n := m.dirty
 	if m.next > n {
 		n = m.next
@@ -288,6 +294,24 @@ func (m *vmMachine) alias(f mm.Frame) uintptr {
 	}
 	m.aliases = append(m.aliases, b)
 	return uintptr(unsafe.Pointer(&b[0]))
+}
+
+// aliasAtZero maps a read-only view of frame f at address 0, so that virtual page 0 - a legal
+// page to map lazily - shows the frame. It reports false where the host does not allow it.
+func (m *vmMachine) aliasAtZero(f mm.Frame) bool {
+	if m.pageZero {
+		return false
+	}
+	const mapFixed = 0x10
+	got, _, e := syscall.Syscall6(syscall.SYS_MMAP, 0, 4096, syscall.PROT_READ, syscall.MAP_SHARED|mapFixed, uintptr(m.fd), m.ptr(f.Address())-m.base)
+	if e != 0 || got != 0 {
+		if e == 0 {
+			syscall.Syscall(syscall.SYS_MUNMAP, got, 4096, 0)
+		}
+		return false
+	}
+	m.pageZero = true
+	return true
 }
 
 // realias makes the alias page at addr show frame f from now on: what a virtual page shows is
